@@ -5,7 +5,8 @@ package main
 // detector watches the run: a data race prints "WARNING: DATA RACE" on stderr and (with
 // GORACE=halt_on_error=1) ends the process with exit code 66.
 //
-// Input line:  (spawn (runs n) (procs p…) (yield true|false) (limits c s m) (main x<src>))
+// Input line:  (spawn (runs n) (procs p…) (yield true|false) (peek true|false) (limits c s m) (main x<src>))
+//   peek: in every second run a second host goroutine repeatedly holds the cores read lock for 0.2 ms
 // Output line: A=ACCEPT | R=<run> | R=<run> …
 //   run = <outcome> procs=<p> lines=<hex of the output lines at the moment Wait returned, sorted, joined by \n>
 //         late=<output bytes that arrived after Wait returned> cores=<len(vm.Cores.Cores)> lock=free|held
@@ -77,7 +78,7 @@ func sortedLines(s string) string {
 	return strings.Join(lines, "\n")
 }
 
-func spawnRun(prog compiler.CompileOutput, limits runtime.CoreLimits, procs int, yield bool) (res string) {
+func spawnRun(prog compiler.CompileOutput, limits runtime.CoreLimits, procs int, yield bool, peek bool) (res string) {
 	old := goruntime.GOMAXPROCS(procs)
 	defer goruntime.GOMAXPROCS(old)
 	mu := &sync.Mutex{}
@@ -99,6 +100,25 @@ func spawnRun(prog compiler.CompileOutput, limits runtime.CoreLimits, procs int,
 		vm := runtime.NewVM(prog, spawnExec{mu: mu, out: out, yield: yield, n: &atomic.Int64{}}, &ctx, &cancelFn,
 			hms.TestingVmScopeAdditions(), limits)
 		vmp = &vm
+		stopPeek := make(chan struct{})
+		if peek {
+			// a second host thread that inspects the core list under its read lock while the program runs
+			go func() {
+				for {
+					select {
+					case <-stopPeek:
+						return
+					default:
+					}
+					vm.Cores.Lock.RLock()
+					_ = len(vm.Cores.Cores)
+					time.Sleep(200 * time.Microsecond)
+					vm.Cores.Lock.RUnlock()
+					time.Sleep(20 * time.Microsecond)
+				}
+			}()
+		}
+		defer close(stopPeek)
 		vm.SpawnAsync(runtime.MainFn(), nil, nil, nil)
 		type ans struct{ i *value.VmInterrupt }
 		done := make(chan ans, 1)
@@ -164,6 +184,7 @@ func spawnLine(line string) string {
 	runs := 1
 	procs := []int{4}
 	yield := false
+	peek := false
 	for _, it := range sx.List[1:] {
 		switch it.Tag() {
 		case "main":
@@ -177,6 +198,8 @@ func spawnLine(line string) string {
 			}
 		case "yield":
 			yield = it.Arg(0).Bool()
+		case "peek":
+			peek = it.Arg(0).Bool()
 		case "limits":
 			limits = runtime.CoreLimits{CallStackMaxSize: uint(it.Arg(0).Int()), StackMaxSize: uint(it.Arg(1).Int()), MaxMemorySize: uint(it.Arg(2).Int())}
 		}
@@ -202,7 +225,7 @@ func spawnLine(line string) string {
 	}
 	parts := []string{verdict}
 	for r := 0; r < runs; r++ {
-		parts = append(parts, "R="+spawnRun(prog, limits, procs[r%len(procs)], yield))
+		parts = append(parts, "R="+spawnRun(prog, limits, procs[r%len(procs)], yield, peek && r%2 == 1))
 	}
 	return strings.Join(parts, " | ")
 }
